@@ -1564,6 +1564,19 @@ def pc2Oracle (c : PC2) (out : List String) : String :=
       else "pass"
     | _ => "fail wrong-number-of-contacts"
 
+
+/-- `seq2m`: the `seq2t` layout (big cuboid, then a small cuboid or a triangle, both orders) run through the model:
+kinds 0/1 `cuboidCuboid2`, kinds 2/3 `cuboidTriangle2` -/
+def seqmGen2 (s : SeqT2) (pos12 : Iso2 Float) (m : Manifold2 Float) : Manifold2 Float :=
+  let g (i : Nat) : Float := s.tiny.getD i 0.0
+  match s.kind with
+  | 0 => cuboidCuboid2 pos12 s.hb ⟨g 0, g 1⟩ s.pred m
+  | 1 => cuboidCuboid2 pos12 ⟨g 0, g 1⟩ s.hb s.pred m
+  | 2 => cuboidTriangle2 true pos12 s.hb ⟨g 0, g 1⟩ ⟨g 2, g 3⟩ ⟨g 4, g 5⟩ s.pred m
+  | _ => cuboidTriangle2 false pos12 s.hb ⟨g 0, g 1⟩ ⟨g 2, g 3⟩ ⟨g 4, g 5⟩ s.pred m
+def seqmModel2 (s : SeqT2) : String :=
+  String.intercalate " " ((runSeq (seqmGen2 s) Manifold2.new s.poses).map fman2)
+
 def handler (fn : String) : Option Handler :=
   match fn with
   | "tuc3" => some {
@@ -1728,6 +1741,11 @@ def handler (fn : String) : Option Handler :=
       model := fun a => run (do let c ← ppc2; pure (pc2Model c)) a
       oracle := fun a o => match run ppc2 a with
         | some c => pc2Oracle c o
+        | none => "skip bad-args" }
+  | "seq2m" => some {
+      model := fun a => run (do let s ← pseqt2; pure (seqmModel2 s)) a
+      oracle := fun a o => match run pseqt2 a with
+        | some s => withOut (pN poman2 s.poses.length) o (seqtOracle2 s)
         | none => "skip bad-args" }
   | _ => none
 
